@@ -5,11 +5,9 @@ go 1.21
 require (
 	github.com/libsv/go-bk v0.1.6
 	github.com/libsv/go-bt/v2 v2.0.0
+	golang.org/x/crypto v0.14.0
 )
 
-require (
-	github.com/pkg/errors v0.9.1 // indirect
-	golang.org/x/crypto v0.14.0 // indirect
-)
+require github.com/pkg/errors v0.9.1 // indirect
 
 replace github.com/libsv/go-bt/v2 => /repo
